@@ -567,3 +567,24 @@ def solveWithInterval {E : Type} (norm : E → E) (sub : E → E → E) (divisor
   | .rel r => divisors.all (fun d => zeroFree (norm d)) && fullSol (norm r)
 
 end Holpy.C06
+
+namespace Holpy.C06
+
+/-- ℚ as the field of "reals" for the driver and the examples. -/
+def ratNum : Num Rat where
+  ofRat := id
+  ofInt := fun n => (n : Rat)
+  add := (· + ·)
+  sub := (· - ·)
+  mul := (· * ·)
+  div := (· / ·)
+  neg := fun x => -x
+  le := fun a b => decide (a ≤ b)
+  lt := fun a b => decide (a < b)
+  deq := inferInstance
+
+/-- `Z3Macro.eval` / `Z3Method.apply`: the solver is consulted only when `check_z3` is on. -/
+def macroAccepts (checkZ3 : Bool) (solveResult : Bool) : Bool :=
+  if checkZ3 then solveResult else true
+
+end Holpy.C06
